@@ -73,6 +73,13 @@ def tree_leaves(t, n):
     return None if a is None or b is None else a + b
 
 
+def tree_depth(t):
+    return 0 if t == "L" else 1 + max(tree_depth(t[2]), tree_depth(t[3]))
+
+
+U53 = Fraction(1, 2**53)
+
+
 def tree_size(t):
     return 0 if t == "L" else 1 + tree_size(t[2]) + tree_size(t[3])
 
@@ -129,6 +136,17 @@ def oracle_trees(ctx, obs):
                 ctx.violation("S5", f"1-D producer of {n} points split along {o['tree'][:60]}: position {i} holds {f64_of_hex(vals[i])!r}, sequential traversal gives {f64_of_hex(seq[i])!r}"
                                     + (" (dyadic range: every operation is exact, the values must be identical)" if exact_root(r) else " (more than 1e-14 of the range scale apart)"),
                               sig("tree_values"), dict(inp, position=i, got=vals[i], sequential=seq[i], n_bad=len(bad)))
+            # the PROVED float bound (C15_1d_float_bound_partial): tree value and sequential value are each within
+            # ((1+4u)^(D+1) - 1) resp. 4u of the exact value, in units of the range scale; the implementation meeting it validates the float model
+            if not bad and scale >= Fraction(1, 10**290):
+                bound = ((1 + 4 * U53) ** (tree_depth(t) + 1) - 1 + 4 * U53) * scale
+                worst = max((abs(H(a) - H(b)) for a, b in zip(vals, seq)), default=Fraction(0))
+                ctx.cov["obligations"] += 1
+                if worst <= bound:
+                    ctx.cov["discharged"] += 1
+                else:
+                    ctx.violation("S4", f"float model: a 1-D split tree of depth {tree_depth(t)} deviates from the sequential values by {float(worst / scale):.3e} of the range scale, "
+                                        f"more than the proved bound {float(bound / scale):.3e}", {"kind": "float_model_mismatch"}, dict(inp, worst=float(worst), bound=float(bound)), found_input=False)
             if "enum_idx" in o and (o["enum_idx"] != list(range(n)) or o["enum_vals"] != vals):
                 ctx.violation("S5", "1-D producer under enumerate(): positions are not 0,1,2,… in order with the same points", sig("tree_enumerate"), dict(inp, idx=o["enum_idx"][:16]))
             if o.get("enum_panic"):
@@ -260,6 +278,100 @@ def oracle_pools(ctx, obs):
                                   {"kind": "pool_reduction", "fn": name}, dict(inp, got=o[name], single_thread=ref[name]))
 
 
+def log_tree(splits, lo, hi):
+    d = {(a, b): k for a, b, k in splits}
+
+    def rec(a, b):
+        if (a, b) not in d or b - a == 0:
+            return "L"
+        k = d[(a, b)]
+        return ("N", k, rec(a, a + k), rec(a + k, b))
+    return rec(lo, hi)
+
+
+def explainable(t, n, threads, splits, stolen_known=None, memo=None):
+    """is the observed tree an outcome of Model/C15_Bridge.v::bridge_tree for SOME steal pattern? (min = 1)"""
+    def go(t, n, splits, stolen):
+        # returns True when the subtree is consistent given this job's `stolen` flag
+        if n // 2 < 1:
+            return t == "L"
+        if stolen:
+            ok, s2 = True, max(threads, splits // 2)
+        elif splits > 0:
+            ok, s2 = True, splits // 2
+        else:
+            ok, s2 = False, splits
+        if not ok:
+            return t == "L"
+        if t == "L" or t[1] != n // 2:
+            return False
+        return any(go(t[2], n // 2, s2, a) for a in (False, True)) and any(go(t[3], n - n // 2, s2, b) for b in (False, True))
+    return go(t, n, splits, False)
+
+
+def oracle_bridge(ctx, obs):
+    """rayon's real bridge, observed through a logging producer, against the hand-written model of it (Model/C15_Bridge.v)"""
+    cases = []
+    for o in obs:
+        if o["kind"] != "bridge_log":
+            continue
+        n, T = o["len"], o["threads"]
+        ctx.seen(("bridge_log", n, T, json.dumps(o["splits"])))
+        ctx.count(f"bridge_log:threads={T}")
+        ctx.cov["obligations"] += 1
+        t = log_tree(o["splits"], 0, n)
+        bad = [(a, b, k) for a, b, k in o["splits"] if k != (b - a) // 2 or k < 1]
+        if o["sum"] != n * (n - 1) // 2 or bad or not explainable(t, n, T, T):
+            ctx.violation("S4", f"rayon's bridge on a {n}-item producer with {T} thread(s) made splits {o['splits'][:6]}… that the model of bridge (split at len/2 while len/2 >= 1, "
+                                f"budget halving, reset on steal) cannot produce", {"kind": "bridge_model_mismatch"}, o, found_input=False)
+        else:
+            ctx.cov["discharged"] += 1
+        if T == 1:
+            cases.append((f"b{len(cases)}", f"bridge 1 1 (fun _ => false) {n}", tree_coq(t)))
+    if cases:
+        res = run_compute_cases(ctx, "C15b", "From Coq Require Import List.\nFrom SpdVerif Require Import Model.Grid Model.Producer Model.C15_Bridge.\nImport ListNotations.\n", "",
+                                [(c[0], c[1]) for c in cases], shards=4)
+        for cid, _, exp in cases:
+            got = (res.get(cid) or "").replace("%nat", "")
+            ctx.cov["obligations"] += 1
+            if got.replace(" ", "").replace("(", "").replace(")", "") == exp.replace(" ", "").replace("(", "").replace(")", ""):
+                ctx.cov["discharged"] += 1
+            else:
+                ctx.violation("S4", f"one-thread rayon bridge: observed tree {exp[:120]} differs from the Coq model's {got[:120]}", {"kind": "bridge_model_mismatch"},
+                              {"case": cid, "observed": exp, "model": got}, found_input=False)
+
+
+def oracle_simpson(ctx, obs):
+    """Simpson's rule is exact on cubics: every division count (both sides of the sequential/parallel threshold of `simpson`) on every
+    pool size must give the exact integral of a polynomial that does not vanish at the upper limit, to 1e-12 relative"""
+    refs = {o["case"]: o for o in obs if o["kind"] == "simpson_ref"}
+
+    def prim(c, a, b):
+        return sum(Fraction(ck) * (b ** (k + 1) - a ** (k + 1)) / (k + 1) for k, ck in enumerate(c))
+    for o in obs:
+        if o["kind"] != "simpson":
+            continue
+        r = refs[o["case"]]
+        c, ci = [H(x) for x in r["c"]], [H(x) for x in r["ci"]]
+        a, b, a2, b2 = H(r["a"]), H(r["b"]), H(r["a2"]), H(r["b2"])
+        ex1 = (prim(c, a, b), prim(ci, a, b))
+        ex2 = (prim(c, a, b) * prim(ci, a2, b2), (b * b - a * a) / 2 * (b2 - a2) + (b2 * b2 - a2 * a2) / 2 * (b - a) + 3 * (b - a) * (b2 - a2))
+        pool = "the global pool" if o["threads"] == 0 else f"a pool of {o['threads']} thread(s)"
+        for key, ex, what, call in (("one", ex1, "Simpson", "integrate(|x| p(x) + i q(x), a, b)"), ("two", ex2, "2-D Simpson", "integrate2d(|x, y| p(x) q(y) + i (x + y + 3), a, b, a2, b2)")):
+            for d, re_, im_ in o[key]:
+                ctx.seen(("simpson", key, o["case"], o["threads"], d))
+                ctx.count(f"simpson:{key}:" + ("divs<130" if d < 130 else "divs>=130"))
+                ok = all(is_finite_hex(x) for x in (re_, im_)) and relclose(H(re_), ex[0], TOL_RED, abs(ex[0])) and relclose(H(im_), ex[1], TOL_RED, abs(ex[1]))
+                if not ok:
+                    ctx.violation("S5", f"{what} with divs = {d} on {pool} (rayon::current_num_threads() = {o['current_num_threads']}): Integrator::Simpson {{ divs: {d} }}.{call} = "
+                                        f"({f64_of_hex(re_)!r}, {f64_of_hex(im_)!r}) but the rule is exact on cubics and the integral is ({float(ex[0])!r}, {float(ex[1])!r}); "
+                                        f"relative deviation {abs(float((H(re_) - ex[0]) / ex[0])):.2e} (the other division counts / pool sizes agree with the exact value)",
+                                  {"kind": "simpson_exactness", "which": key, "parallel_branch": bool(key == "one" and d + d % 2 - 2 >= 128)},
+                                  {"call": f"Integrator::Simpson {{ divs: {d} }}.{call}", "threads": o["threads"], "current_num_threads": o["current_num_threads"], "divs": d,
+                                   "p_coefficients": r["c"], "q_coefficients": r["ci"], "a": r["a"], "b": r["b"], "a2": r["a2"], "b2": r["b2"],
+                                   "got": [re_, im_], "exact": [float(ex[0]), float(ex[1])]})
+
+
 # ---------------------------------------------------------------------------------------------------- S4
 def correspondence(ctx, obs, quick):
     roots = {o["root"]: o for o in obs if o["kind"] in ("root1d", "root2d")}
@@ -376,11 +488,11 @@ def run(ctx):
     want = replay_setup(ctx)
     quick = ctx.tier == "quick"
     binp = build_harness(ctx)
-    msgs, spans = regen(ctx, ["grid"])
-    ctx.cov["translated_spans"] = {k: v for k, v in spans.items() if k.startswith("grid.") and any(w in k for w in ("par", "it1d", "it2d", "steps_value", "steps2d_value"))}
+    msgs, spans = regen(ctx, ["grid", "c15_reductions"])
+    ctx.cov["translated_spans"] = {k: v for k, v in spans.items() if k.startswith("c15_reductions.") or k.startswith("grid.") and any(w in k for w in ("par", "it1d", "it2d", "steps_value", "steps2d_value"))}
     for m in msgs:
-        ctx.proof_failures.append(("Gen/Grid.v", "translator", m))
-    proved = (not msgs) and prove(ctx, "C15", extra_targets=["Model/GridCheck.vo", "Props/C15_pins.vo"])
+        ctx.proof_failures.append(("Gen/C15_Reductions.v" if "generator c15_reductions" in m else "Gen/Grid.v", "translator", m))
+    proved = (not msgs) and prove(ctx, "C15", extra_targets=["Model/GridCheck.vo", "Props/C15_pins.vo", "Model/C15_Bridge.vo"])
     tier = "thorough" if not quick else "quick"
     obs = run_harness(ctx, binp, ["c15", ctx.seed, 2 if quick else 10, "trees", tier], timeout=900)
     if not any(o["kind"] == "done" for o in obs):
@@ -392,6 +504,28 @@ def run(ctx):
     if not any(o["kind"] in ("done", "timeout") for o in pobs):
         ctx.violation("S5", "harness did not finish the thread-pool runs", {"kind": "crash"}, {"tail": pobs[-1] if pobs else None})
     oracle_pools(ctx, pobs)
+    bobs = run_harness(ctx, binp, ["c15", ctx.seed, 3 if quick else 20, "bridge"], timeout=600)
+    oracle_pools(ctx, [o for o in bobs if o["kind"] in ("timeout", "pool_panic")])
+    if os.path.exists(os.path.join(COQ, "Model", "C15_Bridge.vo")):
+        oracle_bridge(ctx, bobs)
+    sobs = run_harness(ctx, binp, ["c15", ctx.seed, 2 if quick else 8, "simpson"], timeout=1200)
+    if not any(o["kind"] in ("done", "timeout") for o in sobs):
+        ctx.violation("S5", "harness did not finish the Simpson runs", {"kind": "crash"}, {"tail": sobs[-1] if sobs else None})
+    oracle_pools(ctx, [o for o in sobs if o["kind"] in ("timeout", "pool_panic")])
+    oracle_simpson(ctx, sobs)
+    # self-test: a parallel branch that drops the last node (relative change ~ 1/(3 divs)) must be flagged at its division counts only
+    import copy
+    so = next((o for o in sobs if o["kind"] == "simpson"), None)
+    if so:
+        c = copy.deepcopy(so)
+        c["one"] = [[d, re_, im_] if d + d % 2 - 2 < 128 else [d, "0x%016x" % struct.unpack(">Q", struct.pack(">d", f64_of_hex(re_) * (1 - 1 / (3.0 * d))))[0], im_] for d, re_, im_ in c["one"]]
+        probe = Ctx("C15", ctx.tier, ctx.seed)
+        oracle_simpson(probe, [o for o in sobs if o["kind"] == "simpson_ref"] + [c])
+        flagged = {v["detail"]["divs"] for v in probe.violations}
+        expect = {d for d, _, _ in c["one"] if d + d % 2 - 2 >= 128}
+        ctx.log(f"S5 oracle self-test (Simpson): dropped last node flagged at divs {sorted(flagged)}")
+        if flagged != expect:
+            ctx.note(f"oracle self-test: a Simpson parallel branch dropping its last node was flagged at {sorted(flagged)}, expected {sorted(expect)}")
     for o in obs:
         if o["kind"] == "tree1d" and o["tree"] != "L" and "vals" in o and len(o["vals"]) >= 3:
             ctx.sample({"tree": o["tree"][:80], "leaf_sizes": o["lens"][:12], "first_values": [f64_of_hex(x) for x in o["vals"][:3]]}, limit=3)
@@ -412,6 +546,8 @@ def run(ctx):
         for k in range(2):
             obs2 = run_harness(ctx, binp, ["c15", ctx.seed + 1000 + k, 6, "trees", "thorough"], timeout=900)
             oracle_trees(ctx, obs2)
+            oracle_simpson(ctx, run_harness(ctx, binp, ["c15", ctx.seed + 1000 + k, 6, "simpson"], timeout=1200))
+            oracle_pools(ctx, run_harness(ctx, binp, ["c15", ctx.seed + 1000 + k, 2, "pools", "quick"], timeout=1200))
             if any(v["found_input"] for v in ctx.violations):
                 break
     ctx.cov["rule"] = ("split trees on the real producers: ALL proper trees for lengths 0..7 (0..8 thorough) in 1-D and for grids up to 8 points in 2-D; every single split "
@@ -421,12 +557,15 @@ def run(ctx):
                        "counts, HOM rate/visibility, nested parallel quadrature inside a parallel grid.  distinct = distinct (root bits, tree, direction)")
     ctx.cov["clauses"] = {
         "2-D grid: same points, same positions, any split tree": "proved (any carrier => bit-exact) + validated on the real split_at",
-        "1-D range: any split tree": "proved over the reals; 1e-14 float clause validated_only (exact on dyadic ranges)",
+        "1-D range: any split tree": "proved over the reals; float clause proved_partial (Flocq, FLX-53 rounding of every operation: ((1+4u)^(depth+1)-1) of the range scale; guard: no overflow/underflow) and checked against the harness",
         "len contract of reachable producers": "proved",
         "enumerate / indexed collect deliver point k at position k": "proved (model of rayon's EnumerateProducer / CollectConsumer)",
-        "reductions (sums) independent of the tree": "proved in any monoid (R, C); 1e-12 float clause validated_only on pools of 1..16 threads",
+        "reductions (sums) independent of the tree": "proved in any monoid (R, C), also under enumerate(); tied to the code by the generated call-site table (counts, hom_rate, simpson, "
+                                                     "simpson2d: every parallel site classified and pinned; simpson's parallel branch proved to sum the same nodes through the same closures as its "
+                                                     "sequential branch); 1e-12 float clause validated_only on pools of 1..16 threads; Simpson checked exactly on cubics across the 128 threshold",
         "range functions bit-identical across schedules": "follows from collect theorem for deterministic point functions; validated on pools; arrays whose point function "
                                                           "contains a parallel quadrature (singles) are compared to 1e-12",
+        "rayon's scheduler": "modelled as any split tree; additionally bridge with an explicit steal oracle (C15_bridge_any_steals), validated against the real rayon via a logging producer",
         "nested parallel regions complete": "validated, not proved (time-limited runs on pools of 1..16 threads)",
     }
     replay_filter(ctx, want)
